@@ -90,6 +90,19 @@ def compare_with_twin(ctx, res, w):
                     ctx.violation('intercepted call returned another value than in the twin', dict(w, decl=x['decl']))
             elif ox.value is not be.get('raised'):
                 ctx.violation('intercepted call raised another exception object than the wrapped body raised (%s)' % type(ox.value).__name__, dict(w, decl=x['decl']))
+    # the process-wide random generator is the service's: after the run it must be where the undecorated run leaves it
+    if getattr(res, 'global_random_after', None) is not None and getattr(res, 'twin_global_random_after', None) is not None:
+        ctx.count('global_random_stream_compared')
+        if res.global_random_after != res.twin_global_random_after:
+            ctx.violation('the framework drew from (or reseeded) the process-wide random generator while recording: the service\'s own random numbers differ from '
+                          'the undecorated run', w)
+    # a mapping the service owns and hands to the framework (the extractor's return value) must come back untouched
+    ls = getattr(D, 'live_stats', None)
+    if ls is not None:
+        ctx.count('live_mappings_checked')
+        if set(ls) != {'u_tag', 'u_n'}:
+            ctx.violation('a mapping owned by the service (returned by its metadata extractor) was modified by the framework',
+                          dict(w, foreign_keys=sorted(str(k) for k in set(ls) - {'u_tag', 'u_n'})[:5]))
     # nested (suppressed) interceptions: bodies must equal the twin's as a multiset per thread
     db = [(e['thread'], e['decl']) for e in D.journal.bodies()]
     tb = [(e['thread'], e['decl']) for e in T.journal.bodies()]
@@ -162,7 +175,7 @@ def fault_part(ctx):
             if not ctx.mine(idx):
                 continue
             cfg = {'extractor': rng.choice([e for e in fr.EXTRACTORS if e != 'ok_calls_output']), 'fail_save': rng.random() < 0.15, 'rate': rng.choice([None, None, 0, 0.5, 1]),
-                   'copy': rng.choice([None, True, False]), 'kind': rng.choice(['memory', 'memory', 'async', 'file', 's3']),
+                   'copy': rng.choice([None, True, False]), 'kind': rng.choice(['memory', 'memory', 'async', 'file', 's3', 's3calc']),
                    'caller_context': fr.CALLER_CONTEXTS[idx % 9] if idx % 9 < 4 else 'plain'}     # also called from except / finally blocks
             if idx % 5 == 0 and cfg['kind'] != 'async':
                 # the recorder has a past (earlier operations, replays, a failed replay of an imported recording ...)
@@ -170,7 +183,7 @@ def fault_part(ctx):
                 from vlib.cassettes import open_box
                 from vlib.spies import SpyCassette, SpyRandom
                 from vlib.history import give_past
-                cm = open_box(cfg['kind'])
+                cm = open_box('s3' if cfg['kind'] == 's3calc' else cfg['kind'])
                 box = cm.__enter__()
                 spy = SpyCassette(box.cassette)
                 rec0 = TapeRecorder(spy)
